@@ -726,7 +726,11 @@ def rand_flat_for(ctx, base_labels, n=None, kind=None):
     rng = ctx.rng
     n = n if n is not None else rng.choice([0, 1, 3, 5, 8, 12])
     pool = list(dict.fromkeys(base_labels))
-    extra = [(max([x for x in pool if isinstance(x, int)] + [0]) + 1 + i) if (not pool or isinstance(pool[0], int)) else f"zz{i}" for i in range(2)]
+    top = max([x for x in pool if isinstance(x, int)] + [0])
+    if top >= 2**62:
+        top = max([x for x in pool if isinstance(x, int) and x < 2**61] + [0])     # stay inside int64
+    extra = [(top + 1 + i) if (not pool or isinstance(pool[0], int)) else f"zz{i}" for i in range(2)]
+    extra = [x for x in extra if x not in pool] or extra
     mode = rng.choice(["overlap", "overlap", "subset", "disjoint"])
     src = pool + extra if mode == "overlap" else (pool if mode == "subset" and pool else extra)
     labels = [rng.choice(src) for _ in range(n)] if src else []
@@ -760,7 +764,10 @@ def mk_base(ctx, n=None, pattern=None, kind=None):
 def case_add_nested(ctx):
     rng = ctx.rng
     kind = rng.choice(["int", "str"])
-    nf, labels = mk_base(ctx, kind=kind)
+    # every fifth frame: 64-bit identifiers over the whole int64 range (neighbours closer than float64 resolution)
+    extreme = rng.random() < 0.2
+    nf, labels = mk_base(ctx, kind="int" if extreme else kind, pattern="extreme" if extreme else None,
+                         n=rng.choice([2, 3, 4, 6]) if extreme else None)
     flat = rand_flat_for(ctx, labels)
     if flat["index"] and labels and type(flat["index"][0]) is not type(labels[0]):
         return
@@ -892,7 +899,9 @@ def case_from_flat(ctx):
     rng = ctx.rng
     n = rng.choice([1, 2, 4, 7, 10, 25])
     kind = rng.choice(["int", "str"])
-    labels = gen.rand_labels(rng, n, kind=kind, pattern=rng.choice(["dup_unsorted", "dup_sorted", "unique_unsorted", "desc_dups"]))
+    labels = gen.rand_labels(rng, n, kind=kind, pattern=rng.choice(["dup_unsorted", "dup_sorted", "unique_unsorted", "desc_dups", "extreme"]))
+    if isinstance(labels[0], int):
+        kind = "int"
     bvals = [rng.randint(0, 9) for _ in range(n)]
     bnan = [None if rng.random() < 0.25 else rng.randint(0, 9) / 2.0 for _ in range(n)]
     flat = rand_flat_for(ctx, labels, n=n)
